@@ -278,6 +278,7 @@ def run(ctx, out, tier):
         out.inst("C10.detect", 0, 4)
     from rules.C03 import check_sametext
     check_sametext(ctx, out, rule="C10.sametext")
+    check_tagoffset(ctx, out)
     return meta()
 
 
@@ -352,6 +353,35 @@ def check_col0_guard(ctx, out, rule="C10.col0guard"):
             else:
                 out.viol(rule, "%s|guard" % rule, ctx.where(b, s["span"]), "the content's start column is not applied exactly when the content line index is 0")
     out.inst(rule, n, 1, cands)
+
+
+def check_tagoffset(ctx, out, rule="C10.tagoffset"):
+    """The tag scanner's offset arithmetic, decided symbolically (engine/affine.py, A16): the reported start of a
+    tag is the offset of the `<` the tag parser succeeded on, the reported end and the new cursor are the
+    offset of the end of what it consumed - as identities of linear forms, under the affine relations between
+    the scanner's carried slice and its carried integers, which are themselves checked to be preserved by
+    every path around the scan loop."""
+    from engine import affine
+    from engine.core import on_any_view
+    cands = []
+    for b in ctx.reachable_bodies():
+        if b.promoted is None and "tag_parser" in b.id and b.kind in ("Fn", "AssocFn") and b.local_ty(0).startswith("std::result::Result<std::option::Option<blockwatch::tag_parser::BlockTag"):
+            cands.append(b)
+    if len(cands) != 1:
+        out.inst(rule, 0, 3, note="tag scanner (fn .. -> Result<Option<BlockTag>>) not found")
+        return
+    b0 = cands[0]
+
+    def on(v, o):
+        rep = affine.scanner_report(ctx, v)
+        good = [m for ok, m in rep if ok is True]
+        for i, m in enumerate(sorted({m for ok, m in rep if ok is False})):
+            o.viol(rule, "%s|%s|%d" % (rule, "invariant" if "loop entry" in m else ("cursor" if "cursor" in m else "position"), i), ctx.where(b0), m)
+        und = sorted({m for ok, m in rep if ok is None})
+        if und and not any(ok is False for ok, m in rep):
+            o.viol(rule, "%s|undecided" % rule, ctx.where(b0), "the tag scanner's offset arithmetic could not be followed (%s): the positions it reports are undecided" % und[0])
+        o.inst(rule, len(good), 3, good[:4], note="tag start / end / cursor identities and loop-invariant preservation (linear forms)")
+    on_any_view(out, [b0, ctx.inl(b0, tag="all"), ctx.inl(b0, skip=ctx.domain_api, tag="domain", sugar=True)], on)
 
 
 def meta():
